@@ -509,12 +509,24 @@ def cols_of(q):
 
 # ----------------------------------------------------------------------------- lexical tables for TLC
 
-def tables(lexicals):
+def resource_terms(quads):
+    """Terms that occur as subject, predicate or graph name of a stored quad: they are IRIs or blank nodes whatever they look like."""
+    out = set()
+    for q in quads:
+        out.update([q[0], q[1]])
+        if len(q) > 3 and q[3]:
+            out.add(q[3])
+    return out
+
+
+def tables(lexicals, resources=()):
     """kind / num (scaled integer) / rank (code point order) / canon tables over the given lexical forms."""
     lex = set(lexicals) | {str(k) for k in range(-40, 101)}
     kind, num = {}, {}
     for x in lex:
         k = kind_of(x)
+        if x in resources and k not in ("iri", "bn"):
+            k = "iri"
         kind[x] = k
         if k == "num":
             f = float(x)
